@@ -69,6 +69,7 @@ type plResult struct {
 	Events   []plEvent `json:"events"`
 	Payloads [][]byte  `json:"payloads"` // consumed, in order
 	Expected [][]byte  `json:"expected"` // per data datagram: stand-alone payload (nil: nothing publishable)
+	Class    []string  `json:"class"`    // per data datagram, stand-alone: "ok" (decodes), "err" (message AND error), "no" (rejected)
 	Decoded  uint64    `json:"decoded_count"`
 	Problem  string    `json:"problem,omitempty"`
 }
@@ -123,6 +124,7 @@ type plProto struct {
 	start   func()
 	decoded func() uint64
 	alone   func(tpls []plDgram, d plDgram) []byte
+	class   func(tpls []plDgram, d plDgram) string
 }
 
 func plAdapter(proto string, size int) plProto {
@@ -135,6 +137,16 @@ func plAdapter(proto string, size int) plProto {
 			qlen:    func() int { return len(ipfixUDPCh) },
 			start:   func() { go i.ipfixWorker(make(chan struct{})) },
 			decoded: func() uint64 { return atomic.LoadUint64(&i.stats.DecodedCount) },
+			class: func(tpls []plDgram, d plDgram) string {
+				c := ipfix.GetCache("")
+				for _, t := range tpls {
+					if bytes.Equal(plBytes(t.Exp), plBytes(d.Exp)) {
+						ipfix.NewDecoder(plBytes(t.Exp), plBytes(t.Buf)).Decode(c)
+					}
+				}
+				m, err := ipfix.NewDecoder(plBytes(d.Exp), plBytes(d.Buf)).Decode(c)
+				return plClass(m == nil, err)
+			},
 			alone: func(tpls []plDgram, d plDgram) []byte {
 				c := ipfix.GetCache("")
 				for _, t := range tpls {
@@ -160,6 +172,16 @@ func plAdapter(proto string, size int) plProto {
 			qlen:    func() int { return len(netflowV9UDPCh) },
 			start:   func() { go i.netflowV9Worker(make(chan struct{})) },
 			decoded: func() uint64 { return atomic.LoadUint64(&i.stats.DecodedCount) },
+			class: func(tpls []plDgram, d plDgram) string {
+				c := netflow9.GetCache("")
+				for _, t := range tpls {
+					if bytes.Equal(plBytes(t.Exp), plBytes(d.Exp)) {
+						netflow9.NewDecoder(plBytes(t.Exp), plBytes(t.Buf)).Decode(c)
+					}
+				}
+				m, err := netflow9.NewDecoder(plBytes(d.Exp), plBytes(d.Buf)).Decode(c)
+				return plClass(m == nil, err)
+			},
 			alone: func(tpls []plDgram, d plDgram) []byte {
 				c := netflow9.GetCache("")
 				for _, t := range tpls {
@@ -185,6 +207,10 @@ func plAdapter(proto string, size int) plProto {
 			qlen:    func() int { return len(netflowV5UDPCh) },
 			start:   func() { go i.netflowV5Worker(make(chan struct{})) },
 			decoded: func() uint64 { return atomic.LoadUint64(&i.stats.DecodedCount) },
+			class: func(tpls []plDgram, d plDgram) string {
+				m, err := netflow5.NewDecoder(plBytes(d.Exp), plBytes(d.Buf)).Decode()
+				return plClass(m == nil, err)
+			},
 			alone: func(tpls []plDgram, d plDgram) []byte {
 				m, _ := netflow5.NewDecoder(plBytes(d.Exp), plBytes(d.Buf)).Decode()
 				if m == nil || m.Flows == nil {
@@ -204,6 +230,17 @@ func plAdapter(proto string, size int) plProto {
 			qlen:    func() int { return len(sFlowUDPCh) },
 			start:   func() { go s.sFlowWorker(make(chan struct{})) },
 			decoded: func() uint64 { return atomic.LoadUint64(&s.stats.DecodedCount) },
+			class: func(tpls []plDgram, d plDgram) string {
+				dec := sflow.NewSFDecoder(bytes.NewReader(plBytes(d.Buf)), opts.SFlowTypeFilter)
+				dg, err := dec.SFDecode()
+				if err != nil {
+					return "no"
+				}
+				if len(dg.Counters) < 1 && len(dg.Samples) < 1 {
+					return "err" // decodes to nothing publishable: the statement does not settle whether it counts
+				}
+				return "ok"
+			},
 			alone: func(tpls []plDgram, d plDgram) []byte {
 				dec := sflow.NewSFDecoder(bytes.NewReader(plBytes(d.Buf)), opts.SFlowTypeFilter)
 				dg, err := dec.SFDecode()
@@ -217,6 +254,16 @@ func plAdapter(proto string, size int) plProto {
 				return b
 			}}
 	}
+}
+
+func plClass(rejected bool, err error) string {
+	if rejected {
+		return "no"
+	}
+	if err != nil {
+		return "err"
+	}
+	return "ok"
 }
 
 func plRun(job plJob) (res plResult) {
@@ -258,6 +305,7 @@ func plRun(job plJob) (res plResult) {
 	// stand-alone payloads (the oracle's reference: the same real decoder + encoder on a private copy)
 	for _, d := range job.Data {
 		res.Expected = append(res.Expected, ad.alone(job.Templates, d))
+		res.Class = append(res.Class, ad.class(job.Templates, d))
 	}
 	matchP := func(p []byte) int {
 		np := plNorm(job.Proto, p)
@@ -354,6 +402,9 @@ func plRun(job plJob) (res plResult) {
 			full[i] = 0xEE
 		}
 		body := plBytes(d.Buf)
+		if len(body) > cap(b) { // what the socket read does with a datagram longer than the buffer
+			body = body[:cap(b)]
+		}
 		copy(b, body)
 		id := idOf(b)
 		ev(plEvent{Ev: "Recv", D: n, B: id, N: len(body)})
